@@ -35,6 +35,7 @@ type Result struct {
 	Exhaustive   bool           `json:"exhaustive"`
 	Notes        []string       `json:"notes"`
 	Explored     map[string]any `json:"explored,omitempty"`
+	Shard        int            `json:"-"` // cases per cases file (default 400)
 
 	dir      string
 	seen     map[string]bool
@@ -105,7 +106,10 @@ func sanitize(s string) string {
 // WriteCases writes a cases file: header imports module mod, body is the list
 // of case terms of Coq type "case"; the file prints the mismatching indices.
 func (r *Result) WriteCases(mod string, cases []string) {
-	const shard = 400
+	shard := r.Shard
+	if shard <= 0 {
+		shard = 400
+	}
 	for i := 0; i < len(cases); i += shard {
 		j := i + shard
 		if j > len(cases) {
